@@ -619,6 +619,11 @@ Definition exec_api (c : api) (w : world) : world :=
   | ApiStopAnnounce i s => stop_announce_service i s w
   | ApiQueueSend e d => queue_send e d w
   | ApiSendSd es d => send_sd es d w
+  | ApiSetReject i egs =>
+      match get_inst i w with
+      | Some ins => put_inst i (mkInst (in_service ins) egs (in_task ins) (in_can_answer ins) (in_subs ins)) w
+      | None => w
+      end
   end.
 
 (* run one callback to completion *)
